@@ -1494,11 +1494,19 @@ def gen_C20(rng, tier, changed):
         ops = [op('from_row', 0, rows=[vals]), op('reshape', 0, r, c), op('display', 0), op('debug', 0),
                op('switch_order', 0), op('display', 0), op('debug', 0)]
         cases.append(Case(f'C20-big{r}x{c}', ops, 'tr', meta=dict(rows=[vals[i * c:(i + 1) * c] for i in range(r)])))
+    # a vector with spare capacity: the label width must follow the number of elements, not the capacity
+    for (r, c, r2, c2) in [(3, 4, 3, 3), (2, 6, 1, 5), (10, 11, 9, 11), (4, 3, 0, 3)]:
+        vals = [rng.choice([7, 42, 1001, 5]) for _ in range(r * c)]
+        ops = [op('from_row', 0, rows=[vals]), op('reshape', 0, r, c), op('resize', 0, r2, c2), op('display', 0), op('debug', 0),
+               op('switch_order', 0), op('debug', 0), op('resize', 0, r, c), op('debug', 0)]
+        cases.append(Case(f'C20-cap{r}x{c}', ops, 'tr'))
     return cases
 
 
 def render_py(tok):
     table = ["", "x", "ab\ncd", "é", "日本", "a\n", "\n", "a\r\nb", "wide-wide-wide", "  s", "\n\nq", "a\r", "q\nwww\ne", "\U0001f600"]
+    if not (tok[:1] == 'a' and tok[1:].lstrip('-').isdigit()):
+        return tok                      # D (a default value) and compound expressions render as themselves
     v = int(tok[1:])
     return table[v - 1000] if 1000 <= v < 1000 + len(table) else str(v)
 
